@@ -19,6 +19,7 @@ def run(res, work, tier, seed):
         vlib.tallycore(work, res, "observation: two overlapping explicit passes leave a stale value (not reachable through the public API after the C08 fix)",
                        expect="GaugeFresh", Script="ScriptC02")
     vlib.run_core_family(res, work, "c02", tier, seed, parts=12, clauses=CLAUSES)
+    free(res, work, tier, seed)
     from props import corestep
     corestep.run(res, work, tier, seed, "C02")   # step-level replay of the st-c02 scenarios through TallyCore.tla (drift, not a verdict)
     res.rule = ("executions of the real gauge code under the controlled scheduler: exhaustive DFS over the interleavings of the two atomic stores of Update "
@@ -31,3 +32,24 @@ def run(res, work, tier, seed):
         "report passes over a live gauge do not overlap each other (true for every pass source of the library once Close waits for the loop); "
         "with two overlapping passes the design can leave a stale value - recorded as an observation in DESIGN.md, checked at model level in the thorough tier",
     ]
+
+
+def free(res, work, tier, seed):
+    """Free-running: update then pass, again and again, while another goroutine keeps the scope's gauge lock busy (slow
+    AllocateGauge under the write lock).  The enabledness predicates of the lock hooks keep the controlled scheduler from
+    ever letting a pass meet a busy lock, so this part runs without it."""
+    import os
+    out = os.path.join(work, "free")
+    os.makedirs(out)
+    vlib.stage_specs(out)
+    vlib.run_vh(["c02free", "-out", out, "-seed", seed, "-tier", tier], timeout=1800)
+    meta = vlib.read_meta(out)
+    trace = os.path.join(out, "trace.ndjson")
+    fails, r = vlib.tlc_trace(out, "TallyObsTrace.tla", "TallyObsTrace.cfg", trace, meta["events"], timeout=3000, boundary='"e":"scn"')
+    if r["violated"] or not r["consumed"]:
+        raise vlib.Infra("TallyObsTrace did not consume the c02free trace: %s\n%s" % (r["violated"], r["out"][-2000:]))
+    res.add_trace_run("TallyObsTrace gauge freshness with a busy gauge lock (free-running)", r, meta["cases"], meta["events"])
+    res.states += r["distinct"]; res.transitions += r["generated"]
+    lines = vlib.read_lines(trace)
+    res.judge_fails([f for f in fails if f[1] in CLAUSES], lines, lambda ln: vlib.case_context(lines, max(ln, 1), lambda s: '"e":"scn"' in s, max_lines=30))
+    res.evaluations += meta["evals"]
